@@ -111,7 +111,8 @@ func (g *qgen) newVar(typ string, val interface{}, withDefault bool) string {
 }
 
 var hostilePool = []string{"bell\a!", "vt\vx", "del\x7f", "soh\x01", "two  spaces", "three   spaces", "tab\tand  spaces", "q\"uote\\back", "nl\nline", "é  ü", "🙂", "plain",
-	"costs $v1 or $v2", "$v1", "col1\tcol2", "\t", "a\tb\tc", "$v2", "($v1)", "$v3 $v1"} // text that looks like a variable reference is still text
+	"costs $v1 or $v2", "$v1", "col1\tcol2", "\t", "a\tb\tc", "$v2", "($v1)", "$v3 $v1", // text that looks like a variable reference is still text
+	"100%", "50% off", "%d of %s", "100%% sure", "%[1]q%v"} // and text that looks like a format verb too
 
 func (g *qgen) str() string {
 	if g.o.hostile {
